@@ -20,14 +20,22 @@ import (
 type denOpt struct {
 	o     *flags.Option
 	code  string
+	base  int // the declared base of an integer option (10 when none is declared)
 	field string
 	occ   []string // argument texts in command-line order ("" for a bare flag)
 }
 
-func c01Value(c *Ctx, code string) string {
+func c01Value(c *Ctx, code string, base int) string {
 	r := c.Rng
 	switch code {
 	case "int", "Lint", "Fint":
+		if base == 0 {
+			// the base is read off the text: leading 0, 0x, 0b, 0o, digit separators
+			return []string{"010", "0x1f", "0b101", "-0o17", "1_000", "7", "-0x10", "0", "0X1F", "0_7"}[r.Intn(10)]
+		}
+		if base != 10 {
+			return strconv.FormatInt(int64(r.Intn(2000)-1000), base)
+		}
 		return strconv.Itoa(r.Intn(2000) - 1000)
 	case "Fstr!":
 		return []string{"v", "two words", "é", "a=b", "x:y", "q\"uote", " lead"}[r.Intn(7)]
@@ -38,13 +46,13 @@ func c01Value(c *Ctx, code string) string {
 }
 
 // denoteExpected: the Go value the field must hold after the occurrences
-func denoteExpected(code string, occ []string) interface{} {
+func denoteExpected(code string, occ []string, base int) interface{} {
 	switch code {
 	case "str":
 		return occ[len(occ)-1]
 	case "int":
-		v, _ := strconv.Atoi(occ[len(occ)-1])
-		return v
+		v, _ := strconv.ParseInt(occ[len(occ)-1], base, 64)
+		return int(v)
 	case "bool":
 		return true
 	case "Lstr":
@@ -52,7 +60,8 @@ func denoteExpected(code string, occ []string) interface{} {
 	case "Lint":
 		out := make([]int, len(occ))
 		for i, s := range occ {
-			out[i], _ = strconv.Atoi(s)
+			v, _ := strconv.ParseInt(s, base, 64)
+			out[i] = int(v)
 		}
 		return out
 	case "Mstr,str":
@@ -104,6 +113,9 @@ func denoteRun(c *Ctx, n int, scope bool) {
 					dv := map[string]string{"Fint": "42", "Fstr!": "dflt"}[f.Ty]
 					f.Tag += " " + quoteTag("default", dv)
 					cbDefault[f.Name] = dv
+				} else if f.Kind == "v" && (f.Ty == "int" || f.Ty == "Lint") && !strings.Contains(f.Tag, "base:") && g.chance(0.3) && f.Tag != "" {
+					// integer options in a declared base (0: the base is read off the text)
+					f.Tag += " " + quoteTag("base", []string{"0", "0", "16", "2", "36", "8"}[g.r.Intn(6)])
 				} else if f.Sub != nil {
 					addDefaults(f.Sub)
 				}
@@ -184,12 +196,23 @@ func denoteRun(c *Ctx, n int, scope bool) {
 					continue
 				}
 				code := real.optCode(cd.o)
-				if cd.o.OptionalArgument || strings.Contains(string(cd.o.Field().Tag), "base:") || strings.Contains(string(cd.o.Field().Tag), "unquote:") {
+				if cd.o.OptionalArgument || strings.Contains(string(cd.o.Field().Tag), "unquote:") {
 					continue
+				}
+				base := 10
+				if bt := reflect.StructTag(cd.o.Field().Tag).Get("base"); bt != "" {
+					if code != "int" && code != "Lint" {
+						continue
+					}
+					b, err := strconv.Atoi(bt)
+					if err != nil {
+						continue
+					}
+					base = b
 				}
 				d := den[cd.o]
 				if d == nil {
-					d = &denOpt{o: cd.o, code: code, field: cd.o.Field().Name}
+					d = &denOpt{o: cd.o, code: code, base: base, field: cd.o.Field().Name}
 					den[cd.o] = d
 				}
 				if code == "bool" {
@@ -215,10 +238,10 @@ func denoteRun(c *Ctx, n int, scope bool) {
 					}
 					continue
 				}
-				v := c01Value(c, code)
+				v := c01Value(c, code, base)
 				long := strings.HasPrefix(cd.spelling, "--")
 				form := r.Intn(3)
-				separateOK := !(strings.HasPrefix(v, "-") && len(v) > 1) || (code == "int" || code == "Lint")
+				separateOK := !(strings.HasPrefix(v, "-") && len(v) > 1) || ((code == "int" || code == "Lint") && v[1] >= '0' && v[1] <= '9')
 				switch {
 				case form == 0 && separateOK:
 					argv = append(argv, cd.spelling, v)
@@ -353,7 +376,7 @@ func denoteRun(c *Ctx, n int, scope bool) {
 				if d.code[0] == 'F' {
 					continue // (callbacks: judged by their runs, below)
 				}
-				want := denoteExpected(d.code, d.occ)
+				want := denoteExpected(d.code, d.occ, d.base)
 				in := map[string]interface{}{"case": cs.Description, "argv": argv, "option": o.String(), "field": fn, "type": d.code, "occurrences": d.occ}
 				// the value is read from the caller's struct, not through the parser
 				fr, reachable := cr.Real.fields[fn]
